@@ -1,19 +1,39 @@
-import CalicoVerif.Model.C12
+import CalicoVerif.Proofs.C12Bridge
+import CalicoVerif.Proofs.C09
+import CalicoVerif.Props.C11
 /-!
 C12 — all dataplanes agree on the policy verdict.
 
-* `profiles_agree_partial` — for profiles in which no rule has action
-  pass/next-tier, the iptables/nftables profile semantics ("a returning profile
-  chain without the accept mark ⇒ next profile") and the BPF / app-policy one
-  ("pass in a profile ⇒ deny") coincide, for every packet and environment; hence
-  `ipt_bpf_agree_partial`: `iptVerdict = bpfVerdict` for every workload policy
-  whose profiles contain no pass rule.
-* `checker_profiles_partial`, `checker_rules_partial` — the model of the
-  app-policy checker's rule/profile loops computes the reference decision, for
-  rules whose only criteria are protocol / not-protocol with a protocol the
-  builder knows (L4 subset).
-* `profile_pass_disagree` — the full statement is FALSE: witness where the BPF
-  reference (and the checker) deny and iptables/nftables allow.
+**Composition over one reference** (`dataplanes_agree_partial`): for one workload policy
+state and one packet of the common fragment, it chains
+  * a10's `C09.endpoint_chain_verdict` (evaluation of the RENDERED iptables/nftables endpoint,
+    group, policy and profile chains reaches `C09.endpointVerdict`),
+  * `C11.polprog_verdict_partial` (the instructions of the BPF policy program, interpreted, end
+    as the C11 reference verdict demands), and
+  * `checkTiers_ref` (the model of the app-policy checker computes the C11 reference verdict),
+through `endpointVerdict_bridge`, the proof that the two REFERENCE semantics
+(`C09.endpointVerdict` over `Model/Policy.ruleMatches`, and the C11 reference) coincide on
+that fragment.  Conclusion: the chain evaluation, the BPF program and the checker all yield
+the same verdict `v`.
+
+Common fragment (all explicit hypotheses): criteria protocol / not-protocol only (8-bit
+numbers or names), lower-case API actions, NO pass/next-tier rule in a profile, every tier with
+at least one enforced policy, IPv4, BPF build not split and without log actions / flow-log
+recording, plus the hypotheses of the two composed theorems (rendered chains present in the
+chain set, rule renderings exact — C08, ≤ 2 positive match blocks —, marks disjoint, packet is a
+NEW connection, …).  The layout of the iptables side (tiers → groups → policies) enters through
+`hT`/`hP`: its per-tier outcome lists are those of the shared tiers' policies.
+
+Other theorems:
+* `ref_semantics_agree_partial` (formerly `ipt_bpf_agree_partial`) — two hand-written REFERENCE
+  functions coincide when no profile has a pass rule: the mark-bit model of the profile part of the
+  iptables endpoint chain (`iptVerdict`, tied to the real renderer only by the correspondence
+  run) and the C11 reference.  It says nothing about rendered chains or compiled programs by
+  itself — that is `dataplanes_agree_partial`.
+* `checker_rules_ref`, `checker_profiles_ref`, `checker_tiers_ref` — the checker model's loops
+  compute the reference decisions on protocol-only rules (hypotheses quantify over the rules of the
+  lists only; satisfiable: example below).
+* `profile_pass_disagree`, `stale_pass_mark_disagree` — the full statement is FALSE: witnesses.
 -/
 namespace CalicoVerif.C12
 open CalicoVerif.C11
@@ -74,11 +94,11 @@ theorem iptProfileRules_noPass (env : Env) (p : Pkt) (b : Bool) :
         (by_cases hm : ruleMatch env p .dest fr = true <;> simp [hm])
 
 /-- Profiles without pass (and without invalid) actions. -/
-def ProfilesPlain (ps : List Policy) : Prop :=
+def ProfilesNoPass (ps : List Policy) : Prop :=
   ∀ pr ∈ ps, ∀ r ∈ pr.rules, actOf r.action ≠ .pass ∧ actOf r.action ≠ .invalid
 
 theorem iptProfiles_noPass (env : Env) (p : Pkt) :
-    ∀ (ps : List Policy) (b : Bool), ProfilesPlain ps →
+    ∀ (ps : List Policy) (b : Bool), ProfilesNoPass ps →
       iptProfiles env p b ps = (match evalProfiles true env p ps with | .allow => .allow | _ => .deny) := by
   intro ps
   induction ps with
@@ -111,9 +131,10 @@ theorem iptTiers_fst (env : Env) (p : Pkt) :
       simp only
       cases t.endAction <;> first | rfl | exact ih
 
-/-- **iptables/nftables = BPF** for every workload policy whose profiles contain no
-pass/next-tier rule: any tiers, any packets, any IP-set environment. -/
-theorem ipt_bpf_agree_partial (env : Env) (r : Rules) (p : Pkt) (h : ProfilesPlain r.profiles) :
+/-- The two REFERENCE functions `iptVerdict` (mark-bit model of the iptables endpoint chain's
+profile part) and `bpfVerdict` (C11 reference) coincide for every workload policy whose profiles
+contain no pass/next-tier rule: any tiers, packets, IP-set environments. -/
+theorem ref_semantics_agree_partial (env : Env) (r : Rules) (p : Pkt) (h : ProfilesNoPass r.profiles) :
     iptVerdict env r p = bpfVerdict env r p := by
   unfold iptVerdict bpfVerdict workloadVerdict
   have ht := iptTiers_fst env p r.tiers
@@ -130,7 +151,7 @@ theorem ipt_bpf_agree_partial (env : Env) (r : Rules) (p : Pkt) (h : ProfilesPla
     all_goals (cases evalProfiles true env p r.profiles <;> rfl)
 
 -- non-vacuity
-example : ProfilesPlain [⟨[{ action := "allow" }, { action := "deny" }, { action := "log" }]⟩] := by
+example : ProfilesNoPass [⟨[{ action := "allow" }, { action := "deny" }, { action := "log" }]⟩] := by
   intro pr hp r hr
   simp at hp; subst hp
   simp at hr
@@ -161,52 +182,154 @@ theorem stale_pass_mark_disagree :
     bpfVerdict env r p = .allow ∧ iptVerdict env r p = .deny ∧ checkTiers 17 r.profiles r.tiers = some true := by
   decide
 
-/-- A rule whose only criteria are protocol / not-protocol. -/
-def ProtoOnly (r : Rule) : Prop :=
-  r = { action := r.action, matchID := r.matchID, protocol := r.protocol, notProtocol := r.notProtocol }
+/-! ### The app-policy checker model computes the reference decisions -/
 
-/-- The checker's `LOG ⇒ continue`, first other action decides — same as the reference,
-given that its match function agrees with the reference match on these rules. -/
-theorem checker_rules_partial (env : Env) (p : Pkt) (n : Int)
-    (hmatch : ∀ r fr, filterRule env.c.v6 r = some fr → ruleMatch env p .dest fr = matchL4Protocol r n) :
-    ∀ rs : List Rule, (∀ r ∈ rs, (filterRule env.c.v6 r).isSome ∧ actOf r.action ≠ .invalid) →
-      checkRules n rs = some (match evalRules env p .dest rs with
-        | .allow => .allow | .deny => .deny | .pass => .pass | .noMatch => .noMatch) := by
-  intro rs
-  induction rs with
-  | nil => intro _; rfl
-  | cons r rs ih =>
-    intro h
-    have ih' := ih (fun r' hr' => h r' (List.mem_cons_of_mem _ hr'))
-    obtain ⟨hf, ha⟩ := h r (List.mem_cons_self)
-    cases hfr : filterRule env.c.v6 r with
-    | none => simp [hfr] at hf
-    | some fr =>
-      have hm := hmatch r fr hfr
-      simp only [checkRules, evalRules, hfr, hm]
-      by_cases hx : matchL4Protocol r n = true
-      · simp only [hx, if_true]
-        unfold actOf at ha ⊢
-        unfold actionFromString
-        simp only at ha ⊢
-        generalize asciiLower r.action = s at *
-        by_cases h1 : s = "allow" <;> by_cases h2 : s = "deny" <;> by_cases h3 : s = "log" <;>
-          by_cases h4 : s = "pass" <;> by_cases h5 : s = "next-tier" <;> simp_all
-      · simp only [hx, Bool.false_eq_true, if_false]; exact ih'
+/-- `checkRules` = reference `evalRules`, for protocol-only rules with API actions and a packet
+whose protocol is in 1..255 (the checker rejects protocol 0). -/
+theorem checker_rules_ref (env : Env) (p : Pkt) (n : Nat) (hn : 1 ≤ n) (hp : p.proto.toNat = n)
+    (rs : List Rule) (h : RulesL4 rs) :
+    checkRules (n : Int) rs = some (decToCAct (evalRules env p .dest rs)) :=
+  checkRules_ref env p n hn hp rs h
 
-/-- The checker's profile loop = reference profiles with `pass ⇒ deny`. -/
-theorem checker_profiles_partial (env : Env) (p : Pkt) (n : Int)
-    (hmatch : ∀ r fr, filterRule env.c.v6 r = some fr → ruleMatch env p .dest fr = matchL4Protocol r n) :
-    ∀ ps : List Policy, (∀ pr ∈ ps, ∀ r ∈ pr.rules, (filterRule env.c.v6 r).isSome ∧ actOf r.action ≠ .invalid) →
-      checkProfiles n ps = some (evalProfiles true env p ps == .allow) := by
-  intro ps
-  induction ps with
-  | nil => intro _; rfl
-  | cons pr ps ih =>
-    intro h
-    have ih' := ih (fun pr' hp' => h pr' (List.mem_cons_of_mem _ hp'))
-    have h1 := checker_rules_partial env p n hmatch pr.rules (h pr (List.mem_cons_self))
-    simp only [checkProfiles, evalProfiles, h1]
-    cases evalRules env p .dest pr.rules <;> simp [ih']
+theorem checker_profiles_ref (env : Env) (p : Pkt) (n : Nat) (hn : 1 ≤ n) (hp : p.proto.toNat = n)
+    (ps : List Policy) (h : PoliciesL4 ps) :
+    checkProfiles (n : Int) ps = some (evalProfiles true env p ps == .allow) :=
+  checkProfiles_ref env p n hn hp ps h
+
+/-- `checkTiers` = the reference workload verdict (= `bpfVerdict`). -/
+theorem checker_tiers_ref (env : Env) (p : Pkt) (n : Nat) (hn : 1 ≤ n) (hp : p.proto.toNat = n)
+    (r : Rules) (ht : TiersL4 r.tiers) (hpr : PoliciesL4 r.profiles) :
+    checkTiers (n : Int) r.profiles r.tiers = some (bpfVerdict env r p == .allow) := by
+  rw [checkTiers_ref env p n hn hp r.profiles hpr r.tiers ht]
+  simp only [bpfVerdict, workloadVerdict, Bool.false_eq_true, if_false]
+  cases evalTiers env p .dest r.tiers <;> simp <;> (cases evalProfiles true env p r.profiles <;> rfl)
+
+-- satisfiability of the hypotheses: a tier with a TCP-allow and a deny-all rule, a TCP packet
+def exL4a : Rule := { action := "allow", protocol := some (Proto.name "tcp") }
+def exL4b : Rule := { action := "deny", notProtocol := some (Proto.num 17) }
+example : RulesL4 [exL4a, exL4b] := by
+  intro r hr
+  simp at hr
+  rcases hr with rfl | rfl <;> exact ⟨rfl, by decide⟩
+example : TiersL4 [{ endAction := EndAction.deny, endRuleID := 0, policies := [{ rules := [exL4a, exL4b] }] }] := by
+  intro t ht
+  simp at ht; subst ht
+  refine ⟨by simp, ?_⟩
+  intro pol hp
+  simp at hp; subst hp
+  intro r hr
+  simp at hr
+  rcases hr with rfl | rfl <;> exact ⟨rfl, by decide⟩
+/-! ### Composition: rendered chains, BPF program and checker, over one reference -/
+
+theorem common_L4 {ps : List Policy} (h : PoliciesCommon ps) : PoliciesL4 ps := by
+  intro pol hp r hr
+  have hc := h pol hp r hr
+  refine ⟨hc.po, ?_⟩
+  rcases hc.act with e | e | e | e | e <;> rw [e] <;> decide
+
+/-- `polprog.Rules` of a workload interface without host policy (`SuppressNormalHostPolicy`). -/
+def wlRules (tiers : List Tier) (profiles : List Policy) (np : Nat) : Rules :=
+  { tiers := tiers, profiles := profiles, noProfileMatchID := np, suppressNormalHostPolicy := true }
+
+/-- A workload interface with no host policy: the program's verdict is the workload verdict. -/
+theorem verdict_workload (env : Env) (tiers : List Tier) (profiles : List Policy) (np : Nat) (p : Pkt) :
+    verdict env (wlRules tiers profiles np) p =
+      bpfVerdict env (wlRules tiers profiles np) p := by
+  simp only [wlRules, verdict, bpfVerdict, evalTiers, Bool.false_eq_true, if_false, if_true]
+  cases toOrFromHost p <;> rfl
+
+/-- **All dataplanes agree** (common fragment, see the header). -/
+theorem dataplanes_agree_partial
+    -- the shared policy state and packet
+    (tiers : List Tier) (profiles : List Policy) (np : Nat) (env : Env) (st : List Byte)
+    (hct : TiersCommon tiers) (hcp : ProfilesCommon profiles)
+    (hn : 1 ≤ (pktOfD st).proto.toNat)
+    -- BPF side (hypotheses of `C11.polprog_verdict_partial`)
+    (hok : ProgOK env st (wlRules tiers profiles np))
+    (hs : env.stateOK = true) (hnosplit : env.c.policyMapStride = 0)
+    (hshort : (flat (compile env.c (wlRules tiers profiles np))).length < env.c.trampolineStride)
+    (prog : List Insn)
+    (hi : instructions env.c (wlRules tiers profiles np) = some (some [prog]))
+    -- iptables/nftables side (hypotheses of `C09.endpoint_chain_verdict`)
+    (cfg : C08.Cfg) (mo : C08.MarksOK cfg) (vb : C09.VBits cfg) (vd : C09.VD cfg) (e : C09.EpCfg) (env9 : Netfilter.Env)
+    (pkt9 : Netfilter.Packet) (chains : List Netfilter.Chain) (name : String) (tiers9 : List C09.Tier)
+    (profiles9 : List String) (polRules : String → List Policy.Rule) (out : String → C09.PolOutcome) (F : Nat)
+    (m : Netfilter.Mark)
+    (h1 : e.chainType = .normal) (h2 : e.adminUp = true) (h3 : e.failsafe = "")
+    (h4 : pkt9.ctState ≠ "RELATED" ∧ pkt9.ctState ≠ "ESTABLISHED" ∧ pkt9.ctState ≠ "INVALID")
+    (h5 : (e.dropVXLAN = true → pkt9.proto ≠ 17) ∧ (e.dropIPIP = true → pkt9.proto ≠ 4))
+    (h6 : m &&& cfg.markDrop = 0)
+    (h7 : Netfilter.lookupChain chains name = some (C09.endpointChain cfg e name tiers9 profiles9).rules)
+    (h8 : ∀ t ∈ tiers9, ∀ g ∈ t.groups, g.inlined = false →
+      Netfilter.lookupChain chains g.chain = some (C09.policyGroupChain cfg g).rules)
+    (h9 : ∀ t ∈ tiers9, ∀ g ∈ t.groups, ∀ p ∈ g.pols, p.staged = false →
+      C09.PolicyChainOK cfg env9 pkt9 chains (polRules p.chain) p.chain)
+    (h10 : ∀ p ∈ profiles9, C09.ProfileChainOK cfg env9 pkt9 chains (polRules p) p)
+    (o1 : ∀ t ∈ tiers9, ∀ g ∈ t.groups, g.inlined = true → ∀ p ∈ g.nonStaged,
+      out p.chain = C09.policyOutcome env9 pkt9.v6 pkt9 (polRules p.chain))
+    (o2 : ∀ t ∈ tiers9, ∀ g ∈ t.groups, g.inlined = false →
+      out g.chain = C09.firstDecision (g.nonStaged.map fun p => C09.policyOutcome env9 pkt9.v6 pkt9 (polRules p.chain)))
+    (o3 : ∀ p ∈ profiles9, out p = C09.policyOutcome env9 pkt9.v6 pkt9 (polRules p))
+    -- the two sides talk about the same state and packet
+    (he : EnvProto env9) (hv : pkt9.v6 = false) (hpr : pkt9.proto = (pktOfD st).proto.toNat)
+    (hT : tiers9.map (fun t => ((C09.tierTargets t).map (fun th => out th.1), t.defaultPass)) =
+      tiers.map (fun t => (outs9 env9 pkt9 t.policies, t.endAction == .pass)))
+    (hP : profiles9.map out = outs9 env9 pkt9 profiles) :
+    ∃ v : Verdict,
+      -- iptables/nftables: the rendered endpoint chain returns with the accept mark / drops
+      C09.VShape cfg (toV9 v) (Netfilter.evalChain env9 chains pkt9 (F + 4) name m) ∧
+      -- BPF: the program ends with the tail call / pol_rc of `v`
+      (∃ o, (execL env prog (Mach.init st)).obs = some o ∧ (expectedObs env false v).agrees o = true) ∧
+      -- app-policy: OK iff `v` is allow
+      checkTiers ((pktOfD st).proto.toNat : Int) profiles tiers = some (v == .allow) := by
+  refine ⟨bpfVerdict env (wlRules tiers profiles np) (pktOfD st), ?_, ?_, ?_⟩
+  · have h09 := C09.endpoint_chain_verdict cfg mo vb vd e env9 pkt9 chains name tiers9 profiles9 polRules out F m
+      h1 h2 h3 h4 h5 h6 h7 h8 h9 h10 o1 o2 o3
+    rw [hT, hP, endpointVerdict_bridge env9 he pkt9 env (pktOfD st) hv hpr profiles hcp tiers hct] at h09
+    have heq : bpfVerdict env (wlRules tiers profiles np) (pktOfD st) =
+        (match evalTiers env (pktOfD st) .dest tiers with
+          | .allow => Verdict.allow
+          | .deny => .deny
+          | _ => (match evalProfiles true env (pktOfD st) profiles with | .allow => .allow | _ => .deny)) := by
+      simp only [bpfVerdict, workloadVerdict, wlRules, Bool.false_eq_true, if_false]
+      cases evalTiers env (pktOfD st) .dest tiers <;> simp <;> (cases evalProfiles true env (pktOfD st) profiles <;> rfl)
+    rw [heq]
+    exact h09
+  · have := polprog_verdict_partial env st _ hok hs hnosplit hshort prog hi
+    rw [verdict_workload] at this
+    exact this
+  · exact checker_tiers_ref env (pktOfD st) _ hn rfl
+      (wlRules tiers profiles np)
+      (fun t ht => ⟨(hct t ht).1, common_L4 (hct t ht).2⟩) (common_L4 hcp.1)
+
+-- non-vacuity of the layout hypotheses `hT` / `hP`: one tier holding one single-policy group, one profile
+example (env9 : Netfilter.Env) (pkt9 : Netfilter.Packet) (rs ps : List Rule) :
+    let out : String → C09.PolOutcome := fun c =>
+      if c = "pol" then C09.policyOutcome env9 false pkt9 (rs.map trRule)
+      else C09.policyOutcome env9 false pkt9 (ps.map trRule)
+    let tiers9 : List C09.Tier := [{ name := "t", defaultPass := false,
+                                     groups := [{ chain := "g", pols := [{ chain := "pol", staged := false }] }] }]
+    let tiers : List Tier := [{ endAction := EndAction.deny, endRuleID := 0, policies := [{ rules := rs }] }]
+    tiers9.map (fun t => ((C09.tierTargets t).map (fun th => out th.1), t.defaultPass)) =
+        tiers.map (fun t => (outs9 env9 pkt9 t.policies, t.endAction == .pass)) ∧
+      ["prof"].map out = outs9 env9 pkt9 [{ rules := ps }] := by
+  intro out tiers9 tiers
+  constructor
+  · simp [tiers9, tiers, out, C09.tierTargets, C09.Group.jumpTargets, C09.Group.inlined, C09.Group.nonStaged,
+      C09.Group.hasNonStaged, outs9]
+  · simp [out, outs9]
+
+-- non-vacuity of the common fragment
+example : TiersCommon [{ endAction := EndAction.deny, endRuleID := 0, policies := [{ rules := [exL4a, exL4b] }] }] := by
+  intro t ht
+  simp at ht; subst ht
+  refine ⟨by simp, ?_⟩
+  intro pol hp r hr
+  simp at hp; subst hp
+  simp at hr
+  rcases hr with rfl | rfl
+  · exact ⟨rfl, Or.inl rfl, trivial, trivial⟩
+  · exact ⟨rfl, Or.inr (Or.inl rfl), trivial, ⟨by decide, by decide⟩⟩
 
 end CalicoVerif.C12
